@@ -41,6 +41,7 @@ func defaultTermOpts(property string) []string {
 func setTermOpts(opts []string) {
 	optLinSum, optBoundLemmas, optSumAbs = false, false, false
 	optAffine, optTermDiv, optState1Time, optTrust2Time, optPathsTime = false, false, false, false, false
+	optQuotVar, optZ3New = false, false // natives_epic.go
 	for _, o := range opts {
 		switch o {
 		case "affine":
@@ -59,6 +60,10 @@ func setTermOpts(opts []string) {
 			optBoundLemmas = true
 		case "sumabs":
 			optSumAbs = true
+		case "quotvar":
+			optQuotVar = true
+		case "z3new":
+			optZ3New = true
 		}
 	}
 }
